@@ -83,8 +83,6 @@ def build_store():
             Store.json[name] = (text, ck)
     seen = set()
     for key in sorted(C.CLASSES):
-        if key in C.SERIALIZE_ONLY:
-            continue
         cls = C.CLASSES[key]
         meta = cls.__dict__.get("Meta")
         ns = getattr(meta, "namespace", None)
